@@ -276,6 +276,41 @@ def long_spectral_cases(draw, tier):
     return {"A": A, "kind": "pattern", "pat": c["pat"], "rank_ub": min(A.shape[:2])}
 
 
+@st.composite
+def far_scale_cases(draw, tier):
+    hi = 5 if tier == "quick" else 7
+    m, n = draw(st.integers(1, hi)), draw(st.integers(1, hi))
+    A, pat = draw(gen.qarray(m, n, draw(st.sampled_from(["generic", "int", "sparse", "full53"]))))
+    if not A.any():
+        A[0, 0, 1] = 1.0
+    e = draw(st.sampled_from([-250, -200, -170, 150, 180, 250]))
+    return {"A": np.ascontiguousarray(A * 2.0 ** int(round(e * 3.321928))), "pat": pat, "exp10": e}
+
+
+def check_far_scale(case):
+    """Largest singular value of a matrix whose entries are near the ends of the double range: the value itself is
+    representable (the sums of squares behind the other norms are not, and nothing is claimed for them)."""
+    u = L.utils
+    A = case["A"]
+    m, n, _ = A.shape
+    out = Out(tags=tags_of(A))
+    out.label(f"1e{case['exp10']:+d}", shape_class(A))
+    amax = float(np.max(np.abs(A)))
+    sc = 2.0 ** -int(np.floor(np.log2(amax)))
+    s1 = sigma1(A * sc) / sc                       # exact rescaling by a power of two
+    for name, fn in {"matrix_norm(ord=2)": lambda: u.matrix_norm(Q(A), 2), "spectral_norm_2": lambda: u.spectral_norm_2(Q(A)),
+                     "matrix_norm(A^H,ord=2)": lambda: u.matrix_norm(Q(ref.conjT(A)), 2)}.items():
+        ok, rr = out.call(name + "[far scale]", fn)
+        if ok:
+            v = _flt(out, name + "[far scale]", rr)
+            if v is not None:
+                out.le(name + "[far scale]:equals largest singular value", abs(v * sc - s1 * sc), rel_of("two", m, n) * s1 * sc,
+                       f"got {v!r} expected {s1!r}")
+    out.nontrivial = min(m, n) >= 2
+    out.sample = {"shape": [m, n], "exp10": case["exp10"], "sigma1": s1}
+    return out
+
+
 def _coo_with_duplicates(P):
     """COO matrix equal to P whose stored triplets repeat positions: each entry a is stored as a/2 + a/2 (exact)."""
     r, c = np.nonzero(P)
@@ -418,7 +453,8 @@ def check_definitions(case):
 @st.composite
 def spectral_cases(draw, tier):
     m, n = draw(_dim(tier)), draw(_dim(tier))
-    kind = draw(st.sampled_from(["pattern", "pattern", "spectrum", "spectrum", "lowrank_int", "unitary_multiple"]))
+    kind = draw(st.sampled_from(["pattern", "pattern", "spectrum", "spectrum", "lowrank_int", "unitary_multiple",
+                                 "dependent_early_column"]))
     r = min(m, n)
     pat = kind
     if kind == "pattern":
@@ -430,6 +466,16 @@ def spectral_cases(draw, tier):
         A = A * 10.0 ** draw(st.integers(-8, 6))
         rank_ub = int(np.sum(s > 0))
         pat = "spectrum:" + skind
+    elif kind == "dependent_early_column":
+        # an EARLY column is an exact right multiple of another one, independent columns follow (rank deficiency that a
+        # column-by-column factorisation meets before it is done)
+        A, pat = draw(gen.qarray(m, n, draw(st.sampled_from(["int", "generic"]))))
+        A = A.copy()
+        if n >= 2:
+            j = draw(st.integers(1, max(1, n - 2)))
+            i = draw(st.integers(0, j - 1))
+            A[:, j] = ref.qmul(A[:, i], draw(gen.unit_q(exact=True)).reshape(1, 4))
+        rank_ub = min(m, max(1, n - 1)) if n >= 2 else min(m, n)
     elif kind == "lowrank_int":
         rr = draw(st.integers(1, r))
         B, _ = draw(gen.qarray(m, rr, "int"))
@@ -763,6 +809,7 @@ PROPERTY = Property(
     clauses=[
         Clause("definitions", check_definitions, strategy=definition_cases, budget={"quick": 1200, "thorough": 16000}),
         Clause("spectral", check_spectral, strategy=spectral_cases, budget={"quick": 900, "thorough": 12000}),
+        Clause("spectral_far_scale", check_far_scale, strategy=far_scale_cases, budget={"quick": 200, "thorough": 2000}),
         Clause("definitions_long_dimension", check_definitions, strategy=long_definition_cases,
                budget={"quick": 32, "thorough": 320}, shrink=False),
         Clause("spectral_long_dimension", check_spectral, strategy=long_spectral_cases,
